@@ -297,3 +297,40 @@ def avail_cases(ctx, bases):
                 for v in (0, 1):
                     cases.append(("%s s%d:%d g%d a" % (pre, i, v, j)).strip())
     return cases
+
+
+def c08_pred(case, trace):
+    """on the implementation trace of a script WITH faults: (a) the accept thread never panics, spins or hangs; (b) no connection is dispatched to a
+    worker generation that was already dead before the operation; (c) fault notices name only dead workers, at most one per dead generation;
+    (d) whenever the waker queue is drained and the loop has not exited, every live worker generation (initial, or respawned) is in the rotation"""
+    W, L, K, ops = parse_case(case)
+    snaps = parse_trace(trace)
+    prev = None
+    fcount = {}
+    for k, sn in enumerate(snaps):
+        if sn.bad:
+            return "op %d (%s): accept thread %s" % (k, ops[k] if k < len(ops) else "?", sn.bad)
+        if sn.err:
+            return "op %d (%s): accept thread %s" % (k, ops[k], sn.err)
+        openprev = {w["g"]: w["open"] for w in prev.workers} if prev else {g: True for g in range(W)}
+        for e in sn.events:
+            if e[0] == "D":
+                g = int(e.split(">")[1])
+                if g in openprev and not openprev[g]:
+                    return "op %d (%s): connection dispatched to dead worker generation %d (%s)" % (k, ops[k], g, e)
+            if e[0] == "F":
+                idx = int(e[1:])
+                fcount[idx] = fcount.get(idx, 0) + 1
+                dead = sum(1 for w in sn.workers if w["idx"] == idx and not w["open"])
+                if fcount[idx] > dead:
+                    return "op %d (%s): WorkerFaulted(%d) reported %d times for %d dead generation(s)" % (k, ops[k], idx, fcount[idx], dead)
+        if sn.wqlen == 0 and not sn.stopped:
+            for w in sn.workers:
+                if w["open"] and w["idx"] not in sn.handles:
+                    return "op %d (%s): waker queue drained but live worker generation %d (index %d) is not in the rotation %s" % (k, ops[k], w["g"], w["idx"], sn.handles)
+        prev = sn
+    return None
+
+
+def has_fault(case, model_trace):
+    return "F" in [e[0] for sn in parse_trace(model_trace) if not sn.bad for e in sn.events]
